@@ -1,5 +1,7 @@
 import Labella.Proofs.LayoutSep
 import Labella.Model.LayoutSpec
+import Labella.Proofs.EndToEnd
+import Labella.Props.C06
 /-! # C01 — items sharing a layer never overlap and keep the order of their targets
 
 Property theorems only; helper lemmas live in `Labella/Proofs`.  All statements are for every layer
@@ -114,5 +116,297 @@ example :
     (solveSorted ⟨some 0, some 30, 3, 2⟩ [⟨5, 4, false⟩, ⟨5, 4, false⟩, ⟨9, 1, true⟩, ⟨10, 1, true⟩]).map roundHalfEven
       = [2, 9, 14, 17] := by
   decide +kernel
+
+/-! ### end to end: every layer of a computed layout -/
+
+/-- layer `j` of a computed layout as `removeOverlap` saw and left it: every item with the target it was solved against (its data position in layer 0, the position of its own stand-in in layer j-1 otherwise), its width and stub flag, and its reported position, in the reported order -/
+def layerView (o : FOpts) (labels : List Label) (L : List (List Placed)) (j : Nat) : List (LItem × ℚ) :=
+  (L.getD j []).map (fun p => (layerItem o labels (if j = 0 then none else L[j - 1]?) p.ref, (p.pos : ℚ)))
+
+/-- the layer view of a computed layout IS `removeOverlap`'s sorted item list zipped with its reported positions, where the
+items given to `removeOverlap` for layer `j` are those of the `j`-th distributed layer (`layerItems`) -/
+theorem layerView_compute (o : FOpts) (labels : List Label) (j : Nat) :
+    layerView o labels (compute o labels) j
+      = ((sortItems (layerItems o labels j).zipIdx).map (·.1)).zip
+          ((removeOverlap o.toR (layerItems o labels j)).pos.map (fun (p : Int) => (p : ℚ))) :=
+  compute_view o labels j
+
+/-- **C01 end to end**: in every layer of every layout the items stand in the order of their targets and neighbouring centres are at least half the sum of the widths plus the spacing apart, less 1 (rounding) and the solver tolerance -/
+theorem compute_separated (o : FOpts) (labels : List Label) (j : Nat) :
+    sepAdjB o.toR (1 + Layout.eps) (layerView o labels (compute o labels) j) = true := by
+  rw [layerView_compute]
+  exact removeOverlap_sepAdj o.toR _
+
+-- non-vacuity: the three layers of the C06 example (6 labels with a tie, both walls) as `removeOverlap` saw and left them:
+-- (target, width, stub, reported position); in layers 1 and 2 the targets are the reported positions of the stand-ins one layer nearer the axis
+example :
+    (List.range 3).map (fun j =>
+      (layerView C06.permExOpts C06.permExL1 (compute C06.permExOpts C06.permExL1) j).map
+        (fun p => (p.1.target, p.1.width, p.1.stub, p.2))) =
+      [[(5, 1, true, 0), (5, 1, true, 4), (9, 1, true, 6), (10, 7, false, 14), (20, 1, true, 20), (22, 5, false, 26)],
+       [(0, 1, true, 0), (4, 1, true, 3), (6, 6, false, 10), (20, 9, false, 20)],
+       [(0, 8, false, 4), (3, 8, false, 15)]] := by
+  rw [← compute'_eq]
+  decide +kernel
+
+/-! ### end to end: what the stateful engine reports -/
+
+/-- the item an observer reconstructs from a reported layer: target = the item's data position (`ideal`) in layer 0, otherwise
+the reported position of the item carrying the same payload (`data`) in the previous reported layer; width and stub flag as reported -/
+def obsItem (prev : Option (List EngineT.ObsT)) (x : EngineT.ObsT) : LItem :=
+  { target := match prev with
+      | none => x.ideal
+      | some ps => ((ps.find? (fun y => y.data == x.data)).map (·.pos)).getD 0,
+    width := x.width, stub := x.stub }
+
+/-- layer `j` of an observation: every item as reconstructed by `obsItem` against the previous observed layer, with its reported
+position, in the reported order -/
+def obsView (O : List (List EngineT.ObsT)) (j : Nat) : List (LItem × ℚ) :=
+  (O.getD j []).map (fun x => (obsItem (if j = 0 then none else O[j - 1]?) x, x.pos))
+
+/-- the observer's view of the pure observation is the layer view of the pure layout, as soon as distinct labels carry distinct payloads -/
+theorem obsView_observePure (o : FOpts) (labels : List Label) (datas : List Nat) (L : List (List Placed))
+    (hnd : datas.Nodup) (hid : ∀ layer ∈ L, ∀ p ∈ layer, p.ref.id < datas.length) (j : Nat) :
+    obsView (EngineT.observePure o labels datas L) j = layerView o labels L j := by
+  unfold obsView layerView
+  have e1 : (EngineT.observePure o labels datas L).getD j [] = (L.getD j []).map (EngineT.obsP o labels datas j) := by
+    rw [List.getD_eq_getElem?_getD, List.getD_eq_getElem?_getD, EngineT.observePure_getElem?]
+    cases L[j]? <;> rfl
+  have e2 := EngineT.observePure_getElem? o labels datas L (j - 1)
+  rw [e1, e2, List.map_map]
+  apply List.map_congr_left
+  intro pl hpl
+  have hlayer : L.getD j [] ∈ L := by
+    rw [List.getD_eq_getElem?_getD] at hpl ⊢
+    cases hL : L[j]? with
+    | none => rw [hL] at hpl; simp at hpl
+    | some layer => exact List.mem_of_getElem? hL
+  have hpl' := hid _ hlayer pl hpl
+  simp only [Function.comp]
+  by_cases hj : j = 0
+  · simp only [hj, if_true]; rfl
+  · simp only [hj, if_false]
+    cases hP : L[j - 1]? with
+    | none => rfl
+    | some ps =>
+      have hps := hid ps (List.mem_of_getElem? hP)
+      simp only [Option.map_some, obsItem, layerItem]
+      rw [EngineT.find_data_pure o labels datas hnd (j - 1) j ps pl hps hpl']
+      rfl
+
+/-- renaming the payloads by a map that keeps the payloads present apart does not change the observer's view -/
+theorem obsView_relabel (g : Nat → Nat) (O : List (List EngineT.ObsT))
+    (hinj : ∀ l ∈ O, ∀ x ∈ l, ∀ l' ∈ O, ∀ y ∈ l', g y.data = g x.data → y.data = x.data) (j : Nat) :
+    obsView (O.map (fun l => l.map (fun x => { x with data := g x.data }))) j = obsView O j := by
+  unfold obsView
+  have e1 : (O.map (fun l => l.map (fun x : EngineT.ObsT => { x with data := g x.data }))).getD j []
+      = (O.getD j []).map (fun x : EngineT.ObsT => { x with data := g x.data }) := by
+    rw [List.getD_eq_getElem?_getD, List.getD_eq_getElem?_getD, List.getElem?_map]
+    cases O[j]? <;> rfl
+  have e2 : (O.map (fun l => l.map (fun x : EngineT.ObsT => { x with data := g x.data })))[j - 1]?
+      = O[j - 1]?.map (fun l => l.map (fun x : EngineT.ObsT => { x with data := g x.data })) := List.getElem?_map
+  rw [e1, e2, List.map_map]
+  apply List.map_congr_left
+  intro x hx
+  have hlayer : O.getD j [] ∈ O := by
+    rw [List.getD_eq_getElem?_getD] at hx ⊢
+    cases hL : O[j]? with
+    | none => rw [hL] at hx; simp at hx
+    | some layer => exact List.mem_of_getElem? hL
+  simp only [Function.comp]
+  by_cases hj : j = 0
+  · simp only [hj, if_true]; rfl
+  · simp only [hj, if_false]
+    cases hP : O[j - 1]? with
+    | none => rfl
+    | some ps =>
+      simp only [Option.map_some, obsItem]
+      rw [EngineT.find_data_relabel g ps x
+        (fun y hy => hinj _ hlayer x hx ps (List.mem_of_getElem? hP) y hy)]
+
+/-- for EVERY store in which the engine's nodes are labels with pairwise distinct payloads — whatever stale positions, layer numbers, parent
+links and stubs it holds — the observer's view of what `compute` leaves behind is the layer view of the pure layout of the engine's options
+and the (data position, width) of its nodes: every per-layer statement about `layerView … (compute …)` transfers to the engine -/
+theorem computeT_view_pure (e : EngineT.Engine) (s : EngineT.Store) (hg : C06.Good s e.nodes)
+    (hd : (e.nodes.map (fun i => (EngineT.get s i).data)).Nodup) (j : Nat) :
+    obsView (EngineT.observe (EngineT.computeT e s).2 ((EngineT.computeT e s).1.layers.getD [])) j
+      = layerView e.opts (EngineT.labelsOf s e.nodes) (compute e.opts (EngineT.labelsOf s e.nodes)) j := by
+  rw [C06.computeT_pure e s hg, obsView_observePure _ _ _ _ hd]
+  have := compute_ids_lt e.opts (EngineT.labelsOf s e.nodes)
+  rw [EngineT.labelsOf_length] at this
+  rw [List.length_map]
+  exact this
+
+/-- **C01 for the stateful engine, any state**: … what `compute` leaves behind is separated layer by layer -/
+theorem computeT_layers_separated (e : EngineT.Engine) (s : EngineT.Store) (hg : C06.Good s e.nodes)
+    (hd : (e.nodes.map (fun i => (EngineT.get s i).data)).Nodup) (j : Nat) :
+    sepAdjB e.opts.toR (1 + Layout.eps)
+      (obsView (EngineT.observe (EngineT.computeT e s).2 ((EngineT.computeT e s).1.layers.getD [])) j) = true := by
+  rw [computeT_view_pure e s hg hd]
+  exact compute_separated _ _ j
+
+/-- after ANY history the observer's view of what a `compute` leaves in the node objects is the layer view of the pure layout (in every reachable
+world the payloads of the engine's nodes are pairwise distinct: `EngineT.world_inv`) -/
+theorem engine_view_pure (ops : List EngineT.Op) (j : Nat) :
+    obsView (EngineT.observe
+        (EngineT.computeT (EngineT.World.run ops).engine (EngineT.World.run ops).store).2
+        ((EngineT.computeT (EngineT.World.run ops).engine (EngineT.World.run ops).store).1.layers.getD [])) j
+      = layerView (EngineT.World.run ops).engine.opts
+          (EngineT.labelsOf (EngineT.World.run ops).store (EngineT.World.run ops).engine.nodes)
+          (compute (EngineT.World.run ops).engine.opts
+            (EngineT.labelsOf (EngineT.World.run ops).store (EngineT.World.run ops).engine.nodes)) j :=
+  computeT_view_pure _ _ (C06.world_good ops) (EngineT.world_inv ops).datas_nodup j
+
+/-- **C01 for the stateful engine, end to end**: whatever happened before (ANY history of engine creations, re-configurations, fresh
+or re-registered node objects, computes), the layers a `compute` then leaves in the node objects are separated layer by layer:
+reported order = order of the targets (layer 0: data positions; layer j: reported positions of the stand-ins in layer j-1),
+neighbouring centres at least `(w₁+w₂)/2 + spacing − 1 − eps` apart -/
+theorem engine_layers_separated (ops : List EngineT.Op) (j : Nat) :
+    sepAdjB (EngineT.World.run ops).engine.opts.toR (1 + Layout.eps)
+      (obsView (EngineT.observe
+        (EngineT.computeT (EngineT.World.run ops).engine (EngineT.World.run ops).store).2
+        ((EngineT.computeT (EngineT.World.run ops).engine (EngineT.World.run ops).store).1.layers.getD [])) j) = true :=
+  computeT_layers_separated _ _ (C06.world_good ops) (EngineT.world_inv ops).datas_nodup j
+
+/-- … and the same of the observation the history records for that compute (`World.outs`, where payloads are reported as the index of the
+label in its batch) -/
+theorem engine_reports_separated (ops : List EngineT.Op) (O : List (List EngineT.ObsT))
+    (h : (EngineT.World.run (ops ++ [.compute])).outs.getLast? = some O) (j : Nat) :
+    sepAdjB (EngineT.World.run ops).engine.opts.toR (1 + Layout.eps) (obsView O j) = true := by
+  have hrun : EngineT.World.run (ops ++ [.compute]) = (EngineT.World.run ops).step .compute := by
+    unfold EngineT.World.run
+    rw [List.foldl_append]
+    rfl
+  rw [hrun] at h
+  simp only [EngineT.World.step, List.getLast?_concat, Option.some.injEq] at h
+  subst h
+  have hw := EngineT.world_inv ops
+  rw [obsView_relabel (fun d => List.idxOf d (EngineT.World.run ops).last)]
+  · exact engine_layers_separated ops j
+  · rw [C06.compute_after_any_history]
+    have hids := compute_ids_lt (EngineT.World.run ops).engine.opts
+      (EngineT.labelsOf (EngineT.World.run ops).store (EngineT.World.run ops).engine.nodes)
+    rw [EngineT.labelsOf_length] at hids
+    have hmem := EngineT.observePure_data_mem (EngineT.World.run ops).engine.opts
+      (EngineT.labelsOf (EngineT.World.run ops).store (EngineT.World.run ops).engine.nodes)
+      ((EngineT.World.run ops).engine.nodes.map (fun i => (EngineT.get (EngineT.World.run ops).store i).data))
+      _ (by rw [List.length_map]; exact hids)
+    intro l hl x hx l' hl' y hy hxy
+    have hy' := hmem l' hl' y hy
+    rw [hw.datas_eq] at hy'
+    exact (List.idxOf_inj (hw.sub _ hy')).1 hxy
+
+-- non-vacuity: what the history of `C06.staleOps` (a second compute under different options on node objects that carry the stubs, layer
+-- numbers and positions of the first) records for its last compute, as the observer reconstructs it
+example :
+    (List.range 2).map (fun j =>
+      (obsView ((EngineT.World.run (C06.staleOps ++ [.compute])).outs.getLast?.getD []) j).map
+        (fun p => (p.1.target, p.1.width, p.1.stub, p.2))) =
+      [[(5, 8, false, 4), (5, 2, true, 11), (9, 6, false, 17), (10, 2, true, 23), (20, 9, false, 30), (22, 2, true, 38)],
+       [(11, 8, false, 11), (23, 7, false, 23), (38, 5, false, 38)]] := by
+  rw [← EngineT.World.run'_eq]
+  decide +kernel
+
+/-! ### end to end: bounds (C03) and optimality (C02) of every layer -/
+
+/-- the items of layer `j` of the computed layout in the order they were solved and are reported -/
+def solvedItems (o : FOpts) (labels : List Label) (j : Nat) : List LItem :=
+  (layerView o labels (compute o labels) j).map (·.1)
+
+/-- they are the stable target sort of the items `removeOverlap` was given (`layerItems`: the `j`-th distributed layer, every item with
+its data position (layer 0) / the reported position of its stand-in in layer `j-1` as target) … -/
+theorem solvedItems_eq (o : FOpts) (labels : List Label) (j : Nat) :
+    solvedItems o labels j = (sortItems (layerItems o labels j).zipIdx).map (·.1) := by
+  unfold solvedItems
+  rw [layerView_compute, removeOverlap_pos_eq, zip_solveSorted_fst]
+
+/-- … hence sorted by target -/
+theorem solvedItems_sorted (o : FOpts) (labels : List Label) (j : Nat) :
+    (solvedItems o labels j).Pairwise (fun a b => a.target ≤ b.target) := by
+  rw [solvedItems_eq, List.pairwise_map]
+  exact sort_sorted' _
+
+/-- the reported positions of layer `j` are the rounded solver positions of its items -/
+theorem layerView_positions (o : FOpts) (labels : List Label) (j : Nat) :
+    (layerView o labels (compute o labels) j).map (·.2)
+      = (solveSorted o.toR (solvedItems o labels j)).map (fun x => ((roundHalfEven x : Int) : ℚ)) := by
+  rw [solvedItems_eq, layerView_compute, removeOverlap_pos_eq, zip_solveSorted_snd]
+
+theorem layerView_eq_zip (o : FOpts) (labels : List Label) (j : Nat) :
+    layerView o labels (compute o labels) j
+      = (solvedItems o labels j).zip
+          ((solveSorted o.toR (solvedItems o labels j)).map (fun x => ((roundHalfEven x : Int) : ℚ))) := by
+  rw [solvedItems_eq, layerView_compute, removeOverlap_pos_eq]
+
+/-- **C03 end to end**: in every layer whose items fit between the bounds — i.e. for which SOME placement `zs` of the layer's items keeps every
+gap, wall gaps included, with the walls standing exactly at the configured bounds (each bound is optional: an absent bound contributes no wall
+and no wall gap) — every item lies inside the bounds up to `d + n·eps + 1/2`, where `d` is any bound on the wall displacement of
+`C03.walls_near_bounds` (`Σ (zᵢ − tᵢ)² ≤ W·d²`, i.e. `d ≥ sqrt(K / W)`, `W = 10¹⁰` the wall weight), `n·eps` the solver tolerance accumulated over
+the `n` items of the layer and `1/2` the rounding; and in every layer (fitting or not) the separation of `compute_separated` holds.
+Widths and spacings must be non-negative (otherwise an item's edge can stick out beyond its neighbour's). -/
+theorem compute_inside (o : FOpts) (labels : List Label) (j : Nat)
+    (hw : ∀ l ∈ labels, 0 ≤ l.width) (hsw : 0 ≤ o.stubWidth) (hns : 0 ≤ o.nodeSpacing) (hls : 0 ≤ o.lineSpacing)
+    (zs : List ℚ) (hz : zs.length = (solvedItems o labels j).length)
+    (hfeas : SepBy 0 (chainGaps o.toR (solvedItems o labels j))
+      ((leftWall o.toR).map (·.t) ++ zs ++ (rightWall o.toR).map (·.t)))
+    (d : ℚ) (hd : 0 ≤ d) (hK : cost ((solvedItems o labels j).map toVar) zs ≤ Gen.wallWeight * d * d) :
+    insideB o.toR (d + ((solvedItems o labels j).length : ℚ) * Layout.eps + 1 / 2)
+        (layerView o labels (compute o labels) j) = true ∧
+      sepAdjB o.toR (1 + Layout.eps) (layerView o labels (compute o labels) j) = true := by
+  refine ⟨?_, compute_separated o labels j⟩
+  rw [layerView_eq_zip]
+  by_cases hne : solvedItems o labels j = []
+  · rw [hne]; rfl
+  · apply insideB_round
+    refine inside_unrounded o.toR _ hne (solvedItems_sorted o labels j) ?_ hns hls zs hz hfeas d hd hK
+    rw [solvedItems_eq]
+    exact sorted_width_nonneg o labels hw hsw j
+
+/-- "the items of the layer fit between the bounds" in the sense of the executable predicate `fitsB` (widths plus spacings ≤ `maxPos − minPos`;
+always true when a bound is absent) is exactly the hypothesis of `compute_inside`: some placement keeps every gap with the walls at the bounds -/
+theorem fits_iff_feasible (o : FOpts) (labels : List Label) (j : Nat) (h : solvedItems o labels j ≠ []) :
+    fitsB o.toR (solvedItems o labels j) = true ↔
+      ∃ zs : List ℚ, zs.length = (solvedItems o labels j).length ∧
+        SepBy 0 (chainGaps o.toR (solvedItems o labels j))
+          ((leftWall o.toR).map (·.t) ++ zs ++ (rightWall o.toR).map (·.t)) :=
+  fitsB_iff_feasible o.toR _ h
+
+-- non-vacuity: in the C06 example (bounds 0 … 30) the items of each of the three layers fit, and every item is reported inside the bounds
+-- to within the rounding
+example :
+    (List.range 3).map (fun j =>
+      (fitsB C06.permExOpts.toR (solvedItems C06.permExOpts C06.permExL1 j),
+        insideB C06.permExOpts.toR (1 / 2) (layerView C06.permExOpts C06.permExL1 (compute C06.permExOpts C06.permExL1) j)))
+      = [(true, true), (true, true), (true, true)] := by
+  unfold solvedItems
+  rw [← compute'_eq]
+  decide +kernel
+
+/-- **C02 end to end**: in every layer `j` of every layout, with `its` the layer's items in solved (= reported) order:
+(1) the reported positions are the roundings of the solver's positions `solveSorted o its` (= `Chain.solve` on `chainVars`/`chainGaps` of `its`,
+walls dropped), so (2) item by item the reported position is within 1/2 of the solver's; and (3) for a non-empty layer the chain instance
+satisfies the hypotheses of `C02.solve_optimal` (`C02.removeOverlap_instance_ok`), so the solver's placement `x` (walls included: the bounds
+enter the cost as `W (x_L − minPos)² + W (x_R − maxPos)²`) is the least-squares optimum of the layer's targets and gaps:
+`cost x + Σ wᵢ (zᵢ − xᵢ)² ≤ cost z` for EVERY placement `z` that keeps the gaps — it is the unique cheapest such placement. -/
+theorem compute_optimal (o : FOpts) (labels : List Label) (j : Nat) :
+    (layerView o labels (compute o labels) j).map (·.2)
+        = (solveSorted o.toR (solvedItems o labels j)).map (fun x => ((roundHalfEven x : Int) : ℚ)) ∧
+    List.Forall₂ (fun (p : LItem × ℚ) x => |p.2 - x| ≤ 1 / 2)
+        (layerView o labels (compute o labels) j) (solveSorted o.toR (solvedItems o labels j)) ∧
+    (solvedItems o labels j ≠ [] →
+      ∀ zs : List ℚ, zs.length = (chainVars o.toR (solvedItems o labels j)).length →
+        SepBy 0 (chainGaps o.toR (solvedItems o labels j)) zs →
+        cost (chainVars o.toR (solvedItems o labels j))
+            (solve Layout.eps (chainVars o.toR (solvedItems o labels j)) (chainGaps o.toR (solvedItems o labels j)))
+          + wdist (chainVars o.toR (solvedItems o labels j))
+              (solve Layout.eps (chainVars o.toR (solvedItems o labels j)) (chainGaps o.toR (solvedItems o labels j))) zs
+          ≤ cost (chainVars o.toR (solvedItems o labels j)) zs) := by
+  refine ⟨layerView_positions o labels j, ?_, ?_⟩
+  · rw [layerView_eq_zip]
+    by_cases hne : solvedItems o labels j = []
+    · rw [hne, solveSorted_nil]; exact List.Forall₂.nil
+    · exact forall₂_zip_round _ _ (solveSorted_length' _ _ hne).symm
+  · intro hne zs hz hfeas
+    exact solve_optimal' Layout.eps eps_nonneg' _ _ (chain_lengths o.toR hne) (chainVars_pos o.toR _) zs hz hfeas
 
 end Labella.C01
